@@ -12,17 +12,20 @@ HOOK_COMMITS = ["9853245"]
 
 TEXT = {
     "C01": ("Bounded model checking (Kani/CBMC, SAT) of the real FASTA search kernels (search/_search with the end-of-input "
-            "rule and the look-ahead byte, init/first_byte, increment_record, fill_buf) from symbolic reader states over "
+            "rule and the look-ahead byte, init/first_byte, increment_record, fill_buf, trim_cr, and resume_incomplete_search on "
+            "its compaction branch with a short first read) from symbolic reader states over "
             "every window of every file within the bounds, against a file-only reference of the FASTA rules; composition of "
             "the kernels into next() is argued on paper (DESIGN §7) and confirmed natively by pubcheck for counterexamples.",
-            "files <= 8 bytes, <= 6 line ends per record, capacities <= 9; next()'s state dispatch itself is not encoded "
-            "(too large for the solver, DESIGN §3)"),
+            "files <= 8 bytes, <= 6 line ends per record, capacities <= 9; next()'s state dispatch and the growth branch of "
+            "resume_incomplete_search are not encoded (too large for the solver, DESIGN §3, §13.8)"),
     "C02": ("Bounded model checking of the real FASTQ kernels (search incl. validate, search_incomplete for each resume point, "
-            "check_end, fill_buf) from symbolic states over every file <= 9 bytes, against the admissible-outcome reference.",
-            "files <= 9 bytes; ids not inspected here (stub of from_utf8_lossy); next()'s dispatch not encoded"),
+            "check_end, fill_buf, trim_cr) from symbolic states over every file <= 9 bytes, against the admissible-outcome reference.",
+            "files <= 9 bytes; ids not inspected here (stub of from_utf8_lossy); next()'s dispatch and the loop of "
+            "resume_incomplete_search are not encoded (DESIGN §13.8)"),
     "C03": ("Derived: every kernel obligation is stated against the configuration-free reference with the window offset, "
             "capacity instance, chunking, interrupt pattern symbolic; specific kernels: fill_buf under every chunking/interrupt "
-            "pattern, make_room of both readers, FASTA init across refills.",
+            "pattern, make_room of both readers, FASTA init across refills (incl. blank prefixes spanning three buffer fills), "
+            "FASTA resume_incomplete_search (compaction + refill with a short first read).",
             "capacities <= 6 in the refill kernels; two-reader relational whole runs are out of reach of the solver"),
     "C04": ("Record sets from parts (stale coordinates hidden, iteration yields exactly the batch), plus the search/increment "
             "kernels shared with C01/C02/C05 that every read path is composed of; the read_record_set loop itself is only "
@@ -47,7 +50,8 @@ TEXT = {
     "C13": ("Relations between all accessors on records from parts under the record invariant, both formats, RefRecord and "
             "OwnedRecord; UTF-8 text accessors on arbitrary 3-byte headers.", "buffers <= 8 (FASTA) / 10 (FASTQ) bytes, <= 2 lines"),
     "C14": ("fill_buf with a fault-injecting source (any kind, any of the first 6 calls, any interrupt pattern); seek() with a "
-            "failing source.", "next()-level propagation (try_opt!) is a two-line macro not separately encoded"),
+            "failing source; FASTA resume_incomplete_search with a failing refill (error kind preserved, terminal).",
+            "next()-level propagation (try_opt!) is a two-line macro not separately encoded; the FASTQ resume loop is not encoded"),
     "C17": ("Error fields of every FASTQ format error against the reference (line, found byte, lengths), FASTA InvalidStart "
             "line/byte, error id under the ASCII assumption.", "Display/to_string not executed (formatting machinery out of reach)"),
     "C18": ("Allocator entry points stubbed by counting wrappers: steady-state kernels (search + increment_record, "
